@@ -204,7 +204,8 @@ pub fn install_hooks() {
         // silence the default panic message for panics we expect to catch per run
         let default = std::panic::take_hook();
         std::panic::set_hook(Box::new(move |info| {
-            if QUIET_PANICS.load(Relaxed) { return }
+            // panics of the main thread (the harness itself) are never silenced; RMV_LOUD=1 shows all of them
+            if QUIET_PANICS.load(Relaxed) && my_tid() != usize::MAX && std::env::var_os("RMV_LOUD").is_none() { return }
             default(info)
         }));
     }
@@ -677,7 +678,7 @@ fn run_ser(cfg: &RunCfg, bodies: Vec<Body>) -> Report {
     let first = st.pick_next(NONE, rv::KIND_POINT);
     if first != NONE { st.current = first; sh.cvs[first].notify_one(); }
     // wait for the end
-    let deadline = Instant::now() + Duration::from_secs(120);
+    let deadline = Instant::now() + cfg.watchdog;
     let mut watchdog = false;
     while st.done_threads < n {
         let (g, to) = sh.main.wait_timeout(st, Duration::from_millis(200)).unwrap();
